@@ -327,6 +327,85 @@ func (w *c16world) exchange(script []step, target *url.URL, cancelOnArrival bool
 	return o, func() { release(); cancel() }
 }
 
+// ---- the same forwarder behind a REAL net/http server (and a status-recording writer, as a breaker or tracer
+// puts in front of it), observed by a raw TCP client: what only exists on the wire - trailers, framing - is
+// compared here with what the backend sent.
+
+func trailerSteps(size int, announced bool, salt int) []step {
+	var head bytes.Buffer
+	head.WriteString("HTTP/1.1 200 OK\r\nX-E2e: 1\r\n")
+	if announced {
+		head.WriteString("Trailer: X-Checksum\r\n")
+	}
+	head.WriteString("Transfer-Encoding: chunked\r\n\r\n")
+	out := []step{{stepWrite, head.Bytes()}}
+	if size > 0 {
+		p := payloadS(size, salt)
+		out = append(out, step{stepWrite, append(append([]byte(fmt.Sprintf("%x\r\n", len(p))), p...), '\r', '\n')})
+	}
+	out = append(out, step{stepWrite, []byte("0\r\nX-Checksum: abc123\r\nX-Other-Trailer: t2\r\n\r\n")})
+	return out
+}
+
+func (w *c16world) runWire(rep *lib.Report) {
+	front := lib.StartServer(http.HandlerFunc(func(rw http.ResponseWriter, r *http.Request) {
+		w.proxy.ServeHTTP(utils.NewProxyWriter(rw), r)
+	}))
+	defer front.Close()
+	w.stalling = false
+	get := func(script []step) (*http.Response, []byte, string) {
+		w.backend.Drain()
+		w.backend.Play(script)
+		raw, hung, err := lib.RawExchange(front.Addr, []byte("GET /x?y=1 HTTP/1.1\r\nHost: front.example\r\nConnection: close\r\n\r\n"), 20*time.Second)
+		if hung || err != nil {
+			return nil, nil, fmt.Sprintf("hung=%v err=%v", hung, err)
+		}
+		rs, bodies, perr := lib.ParseResponses(raw, "GET")
+		for len(rs) > 1 && rs[0].StatusCode >= 100 && rs[0].StatusCode < 200 {
+			rs, bodies = rs[1:], bodies[1:] // informational responses precede the final one
+		}
+		if perr != nil || len(rs) != 1 {
+			return nil, nil, fmt.Sprintf("%d responses on the wire (%v): %.120q", len(rs), perr, raw)
+		}
+		return rs[0], bodies[0], ""
+	}
+	what := func(n string) map[string]any {
+		return map[string]any{"engine": "enum", "part": "c16", "mode": "wire", "name": n}
+	}
+	// trailers: announced or not, after an empty or a non-empty body
+	for _, size := range []int{0, 1, 4095} {
+		for _, announced := range []bool{true, false} {
+			name := fmt.Sprintf("trailers body=%d announced=%v", size, announced)
+			resp, body, bad := get(trailerSteps(size, announced, 5))
+			rep.Evaluations++
+			switch {
+			case bad != "":
+				rep.Violate("C16:wire:exchange-failed", name+": "+bad, what(name))
+			case resp.StatusCode != 200 || !bytes.Equal(body, payloadS(size, 5)) || resp.Header.Get("X-E2e") != "1":
+				rep.Violate("C16:wire:response-altered", fmt.Sprintf("%s: status %d, %d body bytes, X-E2e=%q", name, resp.StatusCode, len(body), resp.Header.Get("X-E2e")), what(name))
+			case resp.Trailer.Get("X-Checksum") != "abc123" || resp.Trailer.Get("X-Other-Trailer") != "t2":
+				rep.Violate("C16:wire:trailer-lost", fmt.Sprintf("%s: the backend sent trailers X-Checksum: abc123 and X-Other-Trailer: t2, the client received trailers %v", name, resp.Trailer), what(name))
+			default:
+				rep.Count("wire_exchanges_with_trailers")
+			}
+		}
+	}
+	// a few ordinary scripts over the wire as well
+	for _, r := range []respScript{{200, 1, 4095, "chunked", false, 2}, {404, 0, 1, "content-length", false, 2}, {201, 1, 0, "content-length", false, 0}, {200, 0, 1, "close", false, 4}, {503, 2, 4095, "content-length", true, 6}} {
+		resp, body, bad := get(r.steps())
+		rep.Evaluations++
+		want := payloadS(r.size, r.salt)
+		switch {
+		case bad != "":
+			rep.Violate("C16:wire:exchange-failed", r.String()+": "+bad, what(r.String()))
+		case resp.StatusCode != r.status || !bytes.Equal(body, want):
+			rep.Violate("C16:wire:response-altered", fmt.Sprintf("%v: status %d, %d body bytes (want %d, %d)", r, resp.StatusCode, len(body), r.status, len(want)), what(r.String()))
+		default:
+			rep.Count("wire_exchanges")
+		}
+	}
+}
+
 func eventsOK(ev []int) bool {
 	return len(ev) == 2 && ev[0] == forward.StateConnected && ev[1] == forward.StateDisconnected
 }
@@ -645,7 +724,7 @@ func runSpecials(w *c16world, rep *lib.Report) {
 func RunC16(tier string, sh lib.Shard, rep *lib.Report) {
 	scripts := respScripts(tier)
 	rep.Bounds["response_scripts"] = len(scripts)
-	rep.Rule = "every backend response script (8 statuses x 3 header sets x body sizes {0,1,4KiB-1,32KiB+1(,1MiB)} x framing {Content-Length, chunked, close-delimited}, written in several pieces; a third of them also preceded by a 103 informational response) relayed fault-free under each of 16 client request heads (Connection with empty list elements, twice, close, upgrade without Upgrade; TE; empty/list forwarding headers; long and empty values; POST declared/chunked/empty; OPTIONS), and with a fault {close, reset, stall} injected at EVERY step index of the script; plus connection refused, garbage heads and client cancellation; raw TCP backend, real forward.New proxy wrapped in a StateListener and a status-recording writer; non-trivial = faults injected"
+	rep.Rule = "every backend response script (8 statuses x 3 header sets x body sizes {0,1,4KiB-1,32KiB+1(,1MiB)} x framing {Content-Length, chunked, close-delimited}, written in several pieces; a third of them also preceded by a 103 informational response) relayed fault-free under each of 16 client request heads (Connection with empty list elements, twice, close, upgrade without Upgrade; TE; empty/list forwarding headers; long and empty values; POST declared/chunked/empty; OPTIONS), and with a fault {close, reset, stall} injected at EVERY step index of the script; plus connection refused, garbage heads and client cancellation; plus exchanges through a real net/http server to a raw TCP client (trailers announced or not after empty and non-empty bodies, framings); raw TCP backend, real forward.New proxy wrapped in a StateListener and a status-recording writer; non-trivial = faults injected"
 	rep.Assume("ResponseHeaderTimeout 150ms is part of the stall scenarios (backend stalls until released), 20s everywhere else; 30s watchdog, hits re-run 5x", "broken or garbage heads may map to 500 or 502")
 	rep.Require("fault_free_relays", "relays_after_an_informational_response", "relays_with_unusual_request_heads", "large_bodies_relayed", "faults_injected", "gateway_errors_mapped", "aborted_mid_body")
 	w := newC16World()
@@ -688,6 +767,8 @@ func RunC16(tier string, sh lib.Shard, rep *lib.Report) {
 		}
 	}
 	if sh.I == 0 {
+		w.runWire(rep)
+		rep.Require("wire_exchanges_with_trailers", "wire_exchanges")
 		runSpecials(w, rep)
 		rep.Require("client_cancellations", "exchanges_after_failed_listener_callback", "overlapping_exchanges")
 	}
@@ -698,7 +779,9 @@ func ReplayC16(rp map[string]any) (bool, string) {
 	w := newC16World()
 	defer w.backend.Close()
 	rep := lib.NewReport("C16", "replay")
-	if rp["mode"] == "special" {
+	if rp["mode"] == "wire" {
+		w.runWire(rep)
+	} else if rp["mode"] == "special" {
 		runSpecials(w, rep)
 	} else {
 		for _, tier := range []string{"quick", "thorough"} {
